@@ -10,6 +10,9 @@ import (
 // bytes the library client sends are parsed by the strict stream parser.
 type FakeServer struct {
 	ln net.Listener
+	// SmallBuffers gives accepted connections a tiny receive buffer, so that a
+	// server that stops reading blocks the client's sender after a few KiB.
+	SmallBuffers bool
 }
 
 // NewFakeServer listens on a free loopback port.
@@ -40,6 +43,11 @@ func (f *FakeServer) Accept(d time.Duration) (*Client, error) {
 	case r := <-ch:
 		if r.err != nil {
 			return nil, r.err
+		}
+		if f.SmallBuffers {
+			if tc, ok := r.c.(*net.TCPConn); ok {
+				tc.SetReadBuffer(2048)
+			}
 		}
 		return NewManual("server-side", r.c), nil
 	case <-time.After(d):
